@@ -25,9 +25,12 @@ run D6 selftest/canaries/D6-im0-clears-iff-late.diff 1 C06
 for f in selftest/refactors/*.diff; do
   n=$(basename "$f" .diff)
   case $n in
+    R10*) props="C01 C04 C12 C13" ;;
+    R11*) props="C08 C13 C18" ;;
     R5*) props="C01 C06 C08 C10 C12" ;;
     R1*|R2*) props="C01 C05 C11 C04" ;;
     R8*) props="C05 C10 C12" ;;
+    R9*) props="C01 C02 C12 C13" ;;
     *) props="C01 C02 C03" ;;
   esac
   run "$n" "$f" 0 $props
